@@ -165,6 +165,9 @@ def case_order(seed, idx, res):
         for s, r in zip(o, out.results):
             n = normalise(r, out.warnings())
             res["counters"]["test_results_compared"] += 1
+            if 2 in (n["exitcode"], alone[s]["exitcode"]):
+                res["counters"]["order_tests_skipped_solver_timeout"] += 1  # wall-clock effect of the external solver (see case_uid)
+                continue
             if n != alone[s]:
                 res["violations"].append(dict(what="a test's result depends on which tests ran before it", key="order-dependence", index=idx, order=o, test=s, alone={k: str(v)[:300] for k, v in alone[s].items()},
                                               in_order={k: str(v)[:300] for k, v in n.items()}, kinds=[(t.fn.sig, t.kind) for t in tests]))
@@ -196,6 +199,11 @@ def case_uid(seed, idx, res):
         results.append([normalise(r, out.warnings()) for r in out.results])
     res["counters"]["evaluations"] += 1
     res["counters"]["uid_seed_triples"] += 1
+    # a solver time-out (exit code 2) is a wall-clock effect of the external solver, not a property of halmos' result: a test for which
+    # any of the three runs timed out is not compared (counted); C05 judges timing independence of the verdict separately
+    keep = [j for j in range(len(sigs)) if not any(str(r[j]["exitcode"]) == "2" for r in results)]
+    res["counters"]["uid_tests_skipped_solver_timeout"] += len(sigs) - len(keep)
+    results = [[r[j] for j in keep] for r in results]
     if not (results[0] == results[1] == results[2]):
         res["violations"].append(dict(what="results depend on the random suffixes of fresh symbol names", key="uid-dependence", index=idx, tests=sigs, results=[[{k: str(v)[:200] for k, v in x.items()} for x in r] for r in results]))
     else:
